@@ -71,6 +71,28 @@ def run(chk):
         hist.append({"cfg": cfg("RECTANGLE", "DOUBLEUTUBEPARALLEL", months=12, flow=("SYSTEM", 2.0)), "other": cfg(months=12), "order_seed": 3})
     # RowWise (rotation limits are converted between degrees and radians on the way in): set_design twice, nothing else re-set
     hist.append({"cfg": cfg("ROWWISE", months=12, loads={"kind": "balanced", "scale": 30000.0, "seed": 2}), "order_seed": 2, "variants": ["set_design_twice"]})
+    # a manager completely set up with other values in ONE section of the input (design object created, a design found), then only that
+    # section set again to the requested values and set_design called again: the design is the one of a fresh manager
+    base_cfg = cfg(months=12, loads={"kind": "balanced", "scale": 24000.0, "seed": 4})
+    changes = [("soil", {"conductivity": 3.1}), ("loads", {"synthetic": {"kind": "heating", "scale": 9000.0, "seed": 2}}), ("simulation", {"num_months": 31}),
+               ("geometric_constraints", {"b": 6.5}), ("design", {"max_eft": 30.0, "continue_if_design_unmet": True}), ("fluid", {"temperature": 5}),
+               ("grout", {"conductivity": 2.0}), ("borehole", {"diameter": 0.11}), ("pipe", {"conductivity": 0.6})]
+    if quick:
+        changes = rng.sample(changes, 4) + [x for x in changes if x[0] in ("loads", "simulation")]
+        changes = list({k: (k, v) for k, v in changes}.values())
+    ccfgs = [base_cfg]
+    for sec, vals in changes:
+        cc = json.loads(json.dumps(base_cfg))
+        cc["_changed_after_design"] = {"section": sec, "values": vals, "design_found_first": rng.random() < 0.5}
+        ccfgs.append(cc)
+    crs = e2e_runs(ccfgs)
+    fresh = crs[0]
+    for (sec, vals), r_ in zip(changes, crs[1:]):
+        chk.cov["evaluations"] += 1
+        if fresh.get("ok") and (not r_.get("ok") or r_["nbh"] != fresh["nbh"] or r_["H"] != fresh["H"] or r_.get("resim_max") != fresh.get("resim_max")):
+            chk.violation("manager-history", {"cfg": base_cfg, "variant": f"section '{sec}' first set to {vals}, then to the requested values, set_design again"},
+                          {"design": {"ok": r_.get("ok"), "exc": r_.get("exc"), "nbh": r_.get("nbh"), "H": r_.get("H")}, "fresh_manager": {"nbh": fresh["nbh"], "H": fresh["H"]}},
+                          "the design depends on the values last set, not on what was set before")
     # one more process whose FIRST design differs from the configuration only in grout / pipe conductivity
     hist.append({"cfg": cfg(months=12, loads={"kind": "cooling", "scale": 28000.0, "seed": 9}), "order_seed": 1, "similar_first": True})
     with ThreadPoolExecutor(max_workers=NPROC) as ex:
